@@ -83,6 +83,7 @@ type vhC10Docs struct {
 	x, y                    []byte
 	conf                    []byte
 	img1, img2, idx1, art1  []byte
+	idx2                    []byte // an index over idx1 (nested)
 	digs                    []digest.Digest
 }
 
@@ -94,6 +95,7 @@ func vhC10Build() *vhC10Docs {
 	d.idx1 = vhIndexDoc([]types.Descriptor{vhDesc(types.MediaTypeOCI1Manifest, d.img1)}, nil, "")
 	subj := vhDesc(types.MediaTypeOCI1Manifest, d.img1)
 	d.art1 = vhImage(vhDesc(types.MediaTypeOCI1Empty, d.conf), []types.Descriptor{vhDesc(types.MediaTypeOCI1Layer, d.x)}, &subj, "application/vnd.test.at1", nil)
+	d.idx2 = vhIndexDoc([]types.Descriptor{vhDesc(types.MediaTypeOCI1ManifestList, d.idx1)}, nil, "")
 	for _, b := range [][]byte{d.x, d.y, d.conf, d.img1, d.img2, d.idx1, d.art1} {
 		d.digs = append(d.digs, digest.Canonical.FromBytes(b), digest.SHA512.FromBytes(b))
 	}
@@ -128,6 +130,18 @@ func VH_C10_Layout() {
 			vhPutManifest(s, "a", "t1", types.MediaTypeOCI1Manifest, d.img1)
 			vhPutManifest(s, "a", "ti", types.MediaTypeOCI1ManifestList, d.idx1)
 			vhPutManifest(s, "a", digest.Canonical.FromBytes(d.art1).String(), types.MediaTypeOCI1Manifest, d.art1)
+		}
+	}
+	if vh.Param("PREFIX", 0) == 2 {
+		// a populated start with nesting: image and index by digest only, an index over
+		// that index by tag
+		d.digs = append(d.digs, digest.Canonical.FromBytes(d.idx2))
+		for _, s := range []*Server{sd, sm} {
+			vhPushBlob(s, "a", d.conf)
+			vhPushBlob(s, "a", d.x)
+			vhPutManifest(s, "a", digest.Canonical.FromBytes(d.img1).String(), types.MediaTypeOCI1Manifest, d.img1)
+			vhPutManifest(s, "a", digest.Canonical.FromBytes(d.idx1).String(), types.MediaTypeOCI1ManifestList, d.idx1)
+			vhPutManifest(s, "a", "t2", types.MediaTypeOCI1ManifestList, d.idx2)
 		}
 	}
 	for n := 0; n < steps; n++ {
@@ -180,7 +194,7 @@ func VH_C10_Layout() {
 			return 0
 		}
 		// was img1 a child of a present index when it is deleted by digest?
-		if op == 6 && vhGetManifest(sd, repo, "ti").Status() == 200 {
+		if op == 6 && vhGetManifest(sd, repo, digest.Canonical.FromBytes(d.idx1).String()).Status() == 200 {
 			childDeleted = true
 		}
 		cd := apply(sd)
